@@ -298,6 +298,42 @@
         lemma_enc_len_table((self.data_cursor - o.indexs@.last().file_index) as nat);
         lemma_idx_area_len(o.indexs@);
     }
+@@ LogInnerManager::write crashpoints write_all set_len
+@@ LogInnerManager::write crash_pre
+    let ghost vx_pd = self.data_file.contents(); let ghost vx_pi = self.index_file.contents();   // @C04
+@@ LogInnerManager::write crash_inv
+    // C04: the disk image at crash point $N is the log as it was, or the log with exactly this record appended.  The script is the
+    // same at every point: it speaks of the state at entry (`o`), of the contents of the two handles just before this mutation
+    // (vx_pd, vx_pi) and of their contents now, so it fits wherever the writes stand in the text.
+    proof {   // @C04
+        let vx_body = rec_msg(*record).pb_bytes();   // @C04
+        let vx_frame = enc(vx_body.len() as nat).add(vx_body);   // @C04
+        let vx_d0 = o.data_file.contents(); let vx_d1 = self.data_file.contents();   // @C04
+        let vx_i0 = o.index_file.contents(); let vx_i1 = self.index_file.contents();   // @C04
+        let vx_c0 = o.data_cursor as int;   // @C04
+        let vx_delta = (vx_c0 + vx_frame.len() - o.indexs@.last().file_index) as nat;   // @C04
+        lemma_enc_len_table(vx_body.len() as nat);   // @C04
+        // what the files looked like before this mutation (holds by the previous crash point, or trivially at the first one)
+        assert(grown_by_zeros(vx_d0, vx_pd) || appended_at(vx_d0, vx_pd, vx_c0, vx_frame));   // @C04
+        if vx_d1 != vx_pd && !grown_by_zeros(vx_d0, vx_d1) {   // @C04
+            assert forall|i: int| 0 <= i < vx_c0 implies #[trigger] vx_d1[i] == vx_d0[i] by { assert(vx_pd[i] == vx_d0[i]); }   // @C04
+            assert forall|i: int| 0 <= i < vx_frame.len() implies #[trigger] vx_d1[vx_c0 + i] == vx_frame[i] by {   // @C04
+                assert(vx_d1.subrange(vx_c0, vx_c0 + vx_frame.len())[i] == vx_d1[vx_c0 + i]);   // @C04
+            }   // @C04
+            assert forall|i: int| vx_c0 + vx_frame.len() <= i < vx_d1.len() implies #[trigger] vx_d1[i] == 0u8 by {   // @C04
+                if i < vx_pd.len() { assert(vx_pd[i] == 0u8) by { if i < vx_d0.len() { assert(vx_d0[i] == 0u8); } } }   // @C04
+            }   // @C04
+            assert(appended_at(vx_d0, vx_d1, vx_c0, vx_frame));   // @C04
+        }   // @C04
+        if vx_i1 != vx_pi {   // @C04
+            let vx_e = enc(vx_delta);   // @C04
+            assert forall|i: int| 0 <= i < vx_e.len() implies #[trigger] vx_i1[o.index_cursor + i] == vx_e[i] by {   // @C04
+                assert(vx_i1.subrange(o.index_cursor as int, o.index_cursor + vx_e.len())[i] == vx_i1[o.index_cursor + i]);   // @C04
+            }   // @C04
+        }   // @C04
+        lemma_crash_append_step(o, *self, vx_body);   // @C04
+    }   // @C04
+    assert(crash_ok_append(o, self.disk_image(), rec_msg(*record).pb_bytes()));   // @C04
 @@ LogInnerManager::write before_return 3
     proof {
         assert(write_data_step(o, *self, body));   // @C02
